@@ -431,7 +431,7 @@ def obligations(tier, known):
 
 
 CLAIM = ("For every macro table and invocation within a deliberately small bound (one function-like macro with 2/3 body items, two "
-         "auxiliary macros, 12/21 invocation forms incl. empty and nested-parenthesis arguments, recursion through arguments and rescanning) "
+         "auxiliary macros, 15/28 invocation forms incl. empty and nested-parenthesis arguments, empty ## operands, white space in #, literals spelled like symbols, recursion through arguments and rescanning with the following source) "
          "the real expander's token spellings equal Prosser's algorithm, it terminates without exception, -D and #define spellings define "
          "the same macro, and `#if M(args) == k` has the reference truth value.")
 LEVEL_NOTE = ("Weakest claim of the set: token-sequence code offers the solver no value domain; CrossHair only enumerates the bounded "
